@@ -154,7 +154,10 @@ def covered_events_removed(ctx, s):
             oku = acc("created_at", ev)(until)
             facts = ctx.E.facts(fn, b)
             okc = any(f[0] == "true" and f[1][0] == "call" and f[1][1].endswith("::" + cls) for f in facts)
-            after_mark = any(s.must_pass(fn, b, s.ok_edges_of_call(fn, mb)) for mb, _ in mk)
+            # ... or after finding that a marker at least as new is already stored (the write is then skipped)
+            newer_stored = s.edges_where(fn, lambda f: f[0] == "le" and any(
+                contains_value(a, lambda y: y[0] == "call" and y[1].endswith("::when_is_naddr_deleted")) for a, k_ in f[1][1]))
+            after_mark = any(s.must_pass(fn, b, (s.ok_edges_of_call(fn, mb) or [mb]) + newer_stored) for mb, _ in mk)
             ok = oku and okc and after_mark
             s.add("S-ORDER", fn, "covered-events-removed", cls, info["sp"], PROVED if ok else VIOLATION,
                   "after the marker is written, events of the address up to the request's created_at are removed" if ok else
@@ -169,9 +172,13 @@ def covered_events_removed(ctx, s):
         for b, info in s.calls(fn, names={callee}):
             rm_ok += s.ok_edges_of_call(fn, b) or [b]
     not_cls = {}
+    ALL_CLS = ("is_replaceable", "is_parameterized_replaceable", "is_ephemeral")
     for cls in ("is_replaceable", "is_parameterized_replaceable"):
-        not_cls[cls] = s.edges_where(fn, lambda f, cls=cls: f[0] == "false" and isinstance(f[1], tuple) and f[1][0] == "call" and
-                                     f[1][1].endswith("::" + cls))
+        # the kind is known not to be of this class: its predicate answered false, or the predicate of another class answered
+        # true (the classes are pairwise disjoint - decided by the kind-class rule)
+        not_cls[cls] = s.edges_where(fn, lambda f, cls=cls: isinstance(f[1], tuple) and f[1] and f[1][0] == "call" and (
+            (f[0] == "false" and f[1][1].endswith("::" + cls)) or
+            (f[0] == "true" and any(f[1][1].endswith("::" + o) for o in ALL_CLS if o != cls))))
     for mb, minfo in mk:
         starts = s.ok_edges_of_call(fn, mb) or [mb]
         inner = [H for H, body in loops.items() if mb in body]
@@ -202,7 +209,7 @@ def covered_events_removed(ctx, s):
         for node in an.edge_cond:
             for f in s.edge_facts(fn, node):
                 if f[0] == "variant" and f[2] == 0 and f[1][0] == "proj" and \
-                        contains_value(f[1], lambda x: x[0] == "call" and x[1].endswith("get_event_by_id")):
+                        contains_value(f[1], lambda x: x[0] == "call" and (x[1].endswith("get_event_by_id") or x[1].endswith("get_offset_by_id"))):
                     good.append(node)
         ok = s.must_pass(fn, b, good)
         s.add("S-ORDER", fn, "target-removed-before-marker", "mark_deleted", info["sp"], PROVED if ok else VIOLATION,
@@ -305,9 +312,19 @@ def ephemeral_not_indexed(ctx, s):
         ok = any(f[0] == "false" and f[1][0] == "call" and f[1][1].endswith("::is_ephemeral") and acc("kind", ev)(unbyref(f[1][2][0]))
                  for f in ctx.E.facts(fn, b))
         oke = info["args"][2] == ev
-        s.add("S-DOM", fn, "ephemeral-not-indexed", "index", info["sp"], PROVED if (ok and oke) else VIOLATION,
-              "index() runs only when is_ephemeral(kind(event)) is false" if (ok and oke) else
-              "ephemeral events can be indexed (they would become retrievable)", b)
+        verdict = PROVED if (ok and oke) else VIOLATION
+        if not ok and oke:
+            fs_ = ctx.E.facts(fn, b)
+            positive = any(f[0] == "true" and isinstance(f[1], tuple) and f[1][0] == "call" and f[1][1].endswith("::is_ephemeral") for f in fs_)
+            tested = any((i_["callee"] or "").endswith("::is_ephemeral") for b_, i_ in ctx.E.an(fn).calls())
+            if tested and not positive:
+                # the ephemeral test is made, and the decision reaches index() through a value computed from it (a class
+                # enum, a policy flag): not read off the dominating conditions
+                verdict = UNDECIDED
+        s.add("S-DOM", fn, "ephemeral-not-indexed", "index", info["sp"], verdict,
+              "index() runs only when is_ephemeral(kind(event)) is false" if verdict == PROVED else
+              ("ephemeral events can be indexed (they would become retrievable)" if verdict == VIOLATION else
+               "the ephemeral test is made but reaches index() through a computed value: not decided"), b)
     # storing an ephemeral event still succeeds: the append is not under the ephemeral test
     app = s.calls(fn, names={APPENDER})
     for b, info in app:
@@ -547,6 +564,17 @@ def lookup_skips_only_other_addresses(ctx, s):
             return neg and any(contains_value(v, is_ev) for v in vals) and any(contains_value(v, is_param) for v in vals)
         good = [n for n in range(cfg.nblocks, cfg.nblocks + len(cfg.edges)) if any(other_address(f) for f in s.edge_new_facts(fn, n))]
         bad = None
+        unclear = False
+
+        def foreign(f):
+            """a condition on the fetched event that has nothing to do with the address asked for"""
+            t = f[1] if len(f) > 1 else None
+            if not (isinstance(t, tuple) and t) or f[0] == "le":
+                return False
+            vals = [t] + [x for x in f[2:] if isinstance(x, tuple)]
+            if f[0] in ("variant", "notvariant") and t[0] == "try":
+                return False            # an error propagated with `?`
+            return any(contains_value(v, is_ev) for v in vals) and not any(contains_value(v, is_param) for v in vals)
         for b, info in fetch:
             inner = [H for H, body in loops.items() if b in body]
             if not inner:
@@ -555,9 +583,18 @@ def lookup_skips_only_other_addresses(ctx, s):
             starts = s.ok_edges_of_call(fn, b) or [b]
             reach = s.reach(fn, starts, avoid=good)
             if H in reach:
-                bad = (b, info)
-        s.add("S-MUSTPASS", fn, "lookup-skips-only-other-addresses", short, fn.sp, PROVED if bad is None else VIOLATION,
-              "an index entry is passed over only when the event fetched for it is not at the address asked for" if bad is None else
+                # a way back to the loop head on which no comparison with the address was recognised: a violation when it
+                # runs over a condition on the event that is foreign to the address, otherwise not decided (the comparison
+                # may have been made in a helper and carried here in its result)
+                fe = [n for n in reach if n >= cfg.nblocks and any(foreign(f) for f in s.edge_new_facts(fn, n))]
+                if any(H in s.reach(fn, [n], avoid=good) for n in fe):
+                    bad = (b, info)
+                else:
+                    unclear = True
+        verdict = VIOLATION if bad is not None else (UNDECIDED if unclear else PROVED)
+        s.add("S-MUSTPASS", fn, "lookup-skips-only-other-addresses", short, fn.sp, verdict,
+              "an index entry is passed over only when the event fetched for it is not at the address asked for" if verdict == PROVED else
+              "an index entry can be passed over on a path where no comparison with the address asked for was recognised: not decided" if verdict == UNDECIDED else
               "the lookup can pass over a stored event for a reason other than its address (kind / d value) being different: a "
               "holder it skips is invisible to the replacement check in store_event but stays indexed, so an older version is "
               "accepted next to it", bad[0] if bad else 0)
